@@ -1394,6 +1394,9 @@ namespace adept {
 	if (storage_) {
 	  storage_->add_link();
 	}
+	if (IsActive) {
+	  internal::GradientIndex<IsActive>::set(rhs.gradient_index());
+	}
       }
       return *this;
     }
